@@ -1,4 +1,4 @@
-import Folang.Lemmas.SimAux
+import Folang.Lemmas.SimWeaken
 /-
 The simulation, one fuel level at a time.  `SimAt md P n`: every evaluation the source evaluator completes
 with fuel n is matched by the Go-core evaluator on the lowered term (with some fuel), with the same
@@ -92,7 +92,10 @@ theorem sim_pure (rs : List String) : ∀ (n : Nat) {e : Expr} {env : Env} {t : 
         simp [hl] at hstep
         obtain ⟨rfl, rfl⟩ := hstep
         obtain ⟨gv, hgl, hrv⟩ := he.lookup (by simpa [wfE] using hw) hl
-        exact ⟨rfl, gv, by simp [lowerE, gpureEvalN, hgl], hrv, by simpa [lowerE, isGPureFor, isPureFor] using hp⟩
+        have hnr : isReserved x = false := by simpa [wfE] using hw
+        refine ⟨rfl, gv, by simp [lowerE, gpureEvalN, hgl], hrv, ?_⟩
+        simp only [lowerE, isGPureFor, isRName_of_not_reserved hnr, Bool.not_false, Bool.and_true]
+        simpa [isPureFor] using hp
     | prim p args =>
       simp only [isPureFor, Bool.and_eq_true] at hp
       simp only [stepExpr] at hstep
